@@ -209,9 +209,31 @@ func init() {
 				return nil, err
 			}
 		}
+		// "links": [[name, target]]: the input `name` is a symbolic link to `target` (relative to the link's directory); a regular file
+		// written under that name from "files" (the content the link resolves to) is replaced by the link
+		for _, f := range hashPairs(req["hidden"]) {
+			if f[1] == nil {
+				continue
+			}
+			if err := os.WriteFile(filepath.Join(pkgDir, *f[0]), []byte(*f[1]), 0o644); err != nil {
+				return nil, err
+			}
+		}
+		for _, l := range hashPairs(req["links"]) {
+			if l[1] == nil {
+				continue
+			}
+			full := filepath.Join(pkgDir, *l[0])
+			_ = os.Remove(full)
+			if err := os.Symlink(*l[1], full); err != nil {
+				return nil, err
+			}
+		}
 		config.Global.WorkspaceRoot = root
 		config.Global.HashAlgorithm = b2s(req["algo"])
 		var tags []string
+		// fields of a target that are not part of the state the key stands for
+		tags = append(tags, strList(req["extra_tags"])...)
 		if req["platform"] == nil {
 			tags = append(tags, model.TagMultiplatformCache)
 			config.Global.OS, config.Global.Arch = "anyos", "anyarch"
@@ -242,6 +264,13 @@ func init() {
 			Outputs:     outs,
 			Fingerprint: fpm,
 			Tags:        tags,
+			Platforms:   strList(req["selectors"]),
+		}
+		if envs := hashPairs(req["env"]); len(envs) > 0 {
+			t.EnvironmentVariables = map[string]string{}
+			for _, kv := range envs {
+				t.EnvironmentVariables[*kv[0]] = *kv[1]
+			}
 		}
 		if b, ok := req["bin"].(string); ok && b != "" {
 			t.BinOutput = model.NewOutput("file", b2s(b))
